@@ -77,6 +77,11 @@ def shekel4_record(fn, rng, tvlow_rel=2e-3, delta_rel=5e-3, maxdepth=11):
             s -= 1.0 / (d2 + C[i])
         return s
     nleaves = [0]
+    # refutation screen (an observed value is a fact): the wells' centres and a few sample points; a value below the declared minimum by more
+    # than the tolerance refutes the declaration at once - and spares a certificate search that cannot succeed
+    cands = [row[:4] for row in A[:maxI] if all(lo[j] <= row[j] <= up[j] for j in range(4))] + sample_points(rng, p, 10)
+    refute = [[y, evalf(p, y)] for y in cands]
+    refute = [rv for rv in refute if rv[1] < optv - tvlow]
 
     def build(l, h, depth):
         lb = low(l, h)
@@ -95,8 +100,8 @@ def shekel4_record(fn, rng, tvlow_rel=2e-3, delta_rel=5e-3, maxdepth=11):
                     cl.append(l[j]), ch.append(mid)
             kids.append(build(cl, ch, depth + 1))
         return kids
-    tree = build(lo, up, 0)
-    r = {"kind": "shekel4", "fn": fn, "A": [qv(row) for row in A], "C": qv(C), "maxI": maxI, "tree": tree, "fobs": q(fobs),
+    tree = build(lo, up, 0) if not refute else []
+    r = {"kind": "shekel4", "refute": [[qv(y), q(v)] for (y, v) in refute[:3]], "fn": fn, "A": [qv(row) for row in A], "C": qv(C), "maxI": maxI, "tree": tree, "fobs": q(fobs),
          "tvlow": q(tvlow), "delta": q(delta), "pts": [[qv(y), q(evalf(p, y))] for y in sample_points(rng, p, 30)], "_leaves": nleaves[0]}
     r.update(meta(p))
     return r
